@@ -66,32 +66,36 @@ type EnumOpts struct {
 func Enumerate(log []Op, from int, o EnumOpts, rnd func() uint64, visit func(spec CrashSpec, pend []PendOp, img []byte)) {
 	var base []byte
 	var pend []PendOp
-	seen := map[string]struct{}{}
+	seen := map[uint64]struct{}{}
 	epoch := 0
 	markers := 0
 	scratch := []byte(nil)
 
 	emit := func(k int, kept []int, tornAt, tornCut int, family string) {
-		// dedupe identical (epoch, markers, subset, tear) combinations
-		var kb strings.Builder
-		kb.WriteString(strconv.Itoa(epoch))
-		kb.WriteByte('/')
-		kb.WriteString(strconv.Itoa(markers))
-		kb.WriteByte('/')
+		// dedupe identical (epoch, markers, subset, tear) combinations (hashed key)
+		h := uint64(14695981039346656037)
+		mix := func(v uint64) {
+			for i := 0; i < 8; i++ {
+				h ^= v & 0xff
+				h *= 1099511628211
+				v >>= 8
+			}
+		}
+		mix(uint64(epoch))
+		mix(uint64(markers))
 		for _, i := range kept {
-			kb.WriteString(strconv.Itoa(pend[i].LogIdx))
-			kb.WriteByte('.')
-			kb.WriteString(strconv.FormatInt(pend[i].Off, 10))
-			kb.WriteByte(',')
+			mix(uint64(pend[i].LogIdx))
+			mix(uint64(pend[i].Off))
 		}
 		if tornAt >= 0 {
-			kb.WriteString("t" + strconv.Itoa(pend[tornAt].LogIdx) + "@" + strconv.Itoa(tornCut))
+			mix(0xffff)
+			mix(uint64(pend[tornAt].LogIdx))
+			mix(uint64(tornCut))
 		}
-		key := kb.String()
-		if _, dup := seen[key]; dup {
+		if _, dup := seen[h]; dup {
 			return
 		}
-		seen[key] = struct{}{}
+		seen[h] = struct{}{}
 
 		scratch = append(scratch[:0], base...)
 		var tornOld []byte
@@ -139,6 +143,38 @@ func Enumerate(log []Op, from int, o EnumOpts, rnd func() uint64, visit func(spe
 					fam = "all"
 				}
 				emit(k, kept, -1, 0, fam)
+			}
+		} else if p > 48 {
+			// very many pending writes (one huge transaction): a bounded structured sample
+			emit(k, nil, -1, 0, "none")
+			emit(k, all, -1, 0, "all")
+			emit(k, all[:1], -1, 0, "only-one")
+			emit(k, all[p-1:], -1, 0, "only-one")
+			emit(k, all[1:], -1, 0, "all-but-one")
+			emit(k, all[:p-1], -1, 0, "all-but-one")
+			for j := 1; j < 12; j++ {
+				cut := j * p / 12
+				emit(k, all[:cut], -1, 0, "prefix")
+				emit(k, all[cut:], -1, 0, "suffix")
+			}
+			// the header write (if pending) alone / missing
+			for i := 0; i < p; i++ {
+				if isHeader(&pend[i]) {
+					emit(k, []int{i}, -1, 0, "only-one")
+					kept := make([]int, 0, p-1)
+					kept = append(kept, all[:i]...)
+					kept = append(kept, all[i+1:]...)
+					emit(k, kept, -1, 0, "all-but-one")
+				}
+			}
+			for r := 0; r < 4; r++ {
+				var kept []int
+				for i := 0; i < p; i++ {
+					if rnd()&3 != 0 {
+						kept = append(kept, i)
+					}
+				}
+				emit(k, kept, -1, 0, "random")
 			}
 		} else {
 			emit(k, nil, -1, 0, "none")
@@ -202,7 +238,11 @@ func Enumerate(log []Op, from int, o EnumOpts, rnd func() uint64, visit func(spe
 			if o.Boundary != nil {
 				ok = o.Boundary(idx)
 			}
-			_ = prev
+			// inside a very long run of un-synced writes (one huge transaction) only
+			// every 97th write boundary is enumerated (plus all sync/marker boundaries)
+			if ok && len(pend) > 48 && prev.Kind == OpWrite && len(pend)%97 != 0 {
+				ok = false
+			}
 			if ok {
 				enumerateAt(idx)
 			}
